@@ -220,3 +220,25 @@ def filter_lists_are_set_up():
     check(And(ALL in pr._include, NON in pr._include), "the broadcast and the null address are always allowed")
     check(And(c in pr._exclude, len(pr._exclude) == 1), "the block list is the configured one")
     check(pr._active_hgi is None, "no gateway is active before one is seen")
+
+
+# ---- the enforcement setting itself ---------------------------------------------------------------------
+from ramses_tx import schemas as TS  # noqa: E402
+
+
+@harness("C10", cases=[(n, m) for n in (0, 1, 2, 3) for m in (0, 1)])
+def enforcement_is_the_configured_one(n, m):
+    """select_device_filter_mode (what Engine.__init__ stores as _enforce_known_list and hands to the
+    protocol's filter and to Gateway.get_device): with a known list of n ids of ANY device types (gateways
+    included) and a block list of m ids, the known list is enforced exactly when enforcement is configured
+    and the known list is not empty -- the kinds of devices listed never switch it off."""
+    known = {}
+    for i in range(n):
+        known[sym_dev(f"known_{i}")] = {}
+    assume(len(known) == n)  # distinct ids
+    block = {sym_dev("blocked"): {}} if m else {}
+    enforce = sym_bool("enforce_known_list")
+    o = outcome(TS.select_device_filter_mode, enforce, known, block)
+    check(o.ok, "select_device_filter_mode does not raise")
+    if o.ok:
+        check(bool(o.value) == (enforce and n > 0), "the known list is enforced iff that is configured and the list is not empty")
